@@ -24,7 +24,7 @@ from sa.astx import NotConst, assigned_targets, call_name, dotted, src, walk_loc
 __all__ = [
     "NONNULL", "FALSY", "peval", "test_value", "reach_under", "path_under", "must_pass_under", "implied",
     "is_self_attr", "self_assigns", "call_nodes", "calls_with", "const_value_is", "written_names", "succ_of",
-    "handler_names", "covers", "no_exc", "first_arg", "name_of", "slice_parts", "value_returned", "local_def", "test_value",
+    "facts_at", "handler_names", "covers", "no_exc", "first_arg", "name_of", "slice_parts", "value_returned", "local_def", "test_value",
 ]
 
 
@@ -219,7 +219,7 @@ _MUTATORS = {"append", "extend", "insert", "pop", "popleft", "appendleft", "remo
 
 
 def _step(node, facts: Tuple[Tuple[str, object], ...]) -> Tuple[Tuple[str, object], ...]:
-    if not facts or node.ast is None:
+    if node.ast is None:
         return facts
     st = node.ast
     if node.kind == "for":
@@ -332,6 +332,13 @@ def path_under(g, facts, dsts: Iterable[int], srcs: Optional[Iterable[int]] = No
             if best is None or len(path) < len(best):
                 best = path
     return best
+
+
+def facts_at(g, facts, nodes: Iterable[int], srcs: Optional[Iterable[int]] = None, exc: bool = False) -> List[Dict[str, object]]:
+    """The fact sets with which the given nodes can be reached (one dict per distinct arrival state)."""
+    nodes = set(nodes)
+    prev = _explore(g, facts, list(srcs) if srcs is not None else [g.entry], (), exc)
+    return [dict(f) for n, f in prev if n in nodes]
 
 
 def must_pass_under(g, facts, via: Iterable[int], srcs: Optional[Iterable[int]] = None, to: Optional[Iterable[int]] = None,
@@ -1405,8 +1412,22 @@ def _structure_returns(stmts, on_return):
             orelse = _structure_returns(list(st.orelse) + ([] if (st.orelse and _ends_in_return(st.orelse)) else _clone(rest)), on_return)
             out.append(ast.If(test=st.test, body=body or [ast.Pass()], orelse=orelse))
             return out
+        if isinstance(st, ast.Try) and _has_return(st) and not st.finalbody:
+            rest = stmts[i + 1:]
+            if any(isinstance(x, ast.Return) for b in st.body[:-1] for x in walk_local(b)) or \
+                    (st.body and not isinstance(st.body[-1], ast.Return) and _has_return(st.body[-1])):
+                raise _NoInline("return in the middle of a try body")
+            body_returns = bool(st.body) and isinstance(st.body[-1], ast.Return)
+            body = _structure_returns(list(st.body), on_return)
+            handlers = []
+            for h in st.handlers:
+                hb = _structure_returns(list(h.body) + ([] if _ends_in_return(h.body) else _clone(rest)), on_return)
+                handlers.append(ast.ExceptHandler(type=h.type, name=h.name, body=hb or [ast.Pass()]))
+            orelse = [] if body_returns else _structure_returns(list(st.orelse) + ([] if (st.orelse and _ends_in_return(st.orelse)) else _clone(rest)), on_return)
+            out.append(ast.Try(body=body or [ast.Pass()], handlers=handlers, orelse=orelse, finalbody=[]))
+            return out
         if _has_return(st):
-            raise _NoInline("return inside a loop / try / with")
+            raise _NoInline("return inside a loop / with / try-finally")
         out.append(st)
     return out
 
@@ -1512,6 +1533,38 @@ class Inliner:
         except _NoInline as e:
             self.refused[call.func.attr] = str(e)
             return [st]
+        # helper calls inside an `if` test whose body is not a plain expression: bind the result to a temporary first
+        if isinstance(st, ast.If):
+            pre = []
+            for x in [x for x in walk_local(st.test) if self.helper_of(x)]:
+                h = self.helper_of(x)
+                try:
+                    _as_expression(self._body(h, x))
+                    continue                      # handled below as an expression
+                except _NoInline:
+                    pass
+                try:
+                    body = self._body(h, x)
+                    tmp = f"_inl_{x.func.attr.lstrip('_')}"
+                    new = _structure_returns(body + ([] if _ends_in_return(body) else [ast.Return(value=ast.Constant(None))]),
+                                             lambda v, tmp=tmp: [ast.Assign(targets=[ast.Name(id=tmp, ctx=ast.Store())], value=v if v is not None else ast.Constant(None), lineno=st.lineno)])
+                except _NoInline as e:
+                    self.refused[x.func.attr] = str(e)
+                    continue
+                for n in new:
+                    ast.copy_location(n, st)
+                    ast.fix_missing_locations(n)
+                pre.extend(new)
+                self.inlined.add(x.func.attr)
+
+                class R(ast.NodeTransformer):
+                    def visit_Call(self_, node, x=x, tmp=tmp):
+                        if node is x:
+                            return ast.copy_location(ast.Name(id=tmp, ctx=ast.Load()), node)
+                        return self_.generic_visit(node)
+                st.test = R().visit(st.test)
+            if pre:
+                return self._stmts(pre, level + 1) + [self._exprs(st, level)]
         # helper calls in expression position
         return [self._exprs(st, level)]
 
